@@ -236,6 +236,20 @@ fn gen_c16(rng: &mut Rng, thorough: bool) -> Case {
         }
     }
     c.script = gen::gen_flow_script(rng, &c, &o, 2);
+    // Names in error reports: a model of the hierarchy (preferably one that has a parent or
+    // children) panics in init or in a handler, or its mailbox is dropped so that its peers'
+    // sends fail.
+    let r = rng.below(100);
+    if r < 45 {
+        let related: Vec<usize> = (0..n).filter(|i| c.nodes[*i].parent.is_some() || c.nodes.iter().any(|x| x.parent == Some(*i as u16))).collect();
+        let i = if !related.is_empty() && rng.pct(80) { *rng.pick(&related) } else { rng.usize(n) };
+        if r < 35 {
+            let at = *rng.pick(&[u32::MAX - 1, 0, 0, 1]);
+            c.nodes[i].panic_at = Some((at, rng.below(3) as u8));
+        } else {
+            c.nodes[i].dead = true;
+        }
+    }
     c.profile = "init".into();
     c
 }
@@ -243,6 +257,9 @@ fn check_c16(case: &Case, out: &Outcome, h: &Hist, _g: &mut Group) -> Vec<Violat
     let mut v = oracle::common(case, out, h);
     v.extend(flow::initialisation(case, h));
     v.extend(flow::conservation(case, h));
+    let ag = agenda::build(case, h);
+    // Open known findings of the classification oracle belong to C11 (race F9), not to the naming rule.
+    v.extend(fault::classification(case, h, &ag).into_iter().filter(|x| x.key != "secondary_send_error_wins_race_mt"));
     v
 }
 fn nt_c16(c: &Case, _out: &Outcome, h: &Hist) -> bool {
@@ -256,7 +273,7 @@ use crate::gen::TimeOpts;
 use crate::oracle::{agenda, time};
 
 fn gen_c01(rng: &mut Rng, thorough: bool) -> Case {
-    let o = TimeOpts { aux_threads: if thorough && rng.pct(30) { 1 } else { 0 }, max_cmds: if thorough { 12 } else { 9 }, ..Default::default() };
+    let o = TimeOpts { aux_threads: if rng.pct(30) { 1 } else { 0 }, max_cmds: if thorough { 12 } else { 9 }, ..Default::default() };
     let mut c = gen::gen_time(rng, &o);
     c.profile = "agenda".into();
     c
@@ -675,7 +692,273 @@ fn nt_c19(_c: &Case, out: &Outcome, h: &Hist) -> bool {
     out.drop_wakes > 0 || h.first_fatal().is_some() || h.handlers.iter().any(|x| x.end.is_none())
 }
 
+
+// ---------------------------------------------------------------- C17
+/// Sinks written by 1-3 models through one or several outputs, volumes from 0
+/// to several times the capacity per command, read / opened / closed by the
+/// driver between commands.
+fn gen_c17(rng: &mut Rng, thorough: bool) -> Case {
+    let o = BenchOpts {
+        min_nodes: 1,
+        max_nodes: if thorough { 4 } else { 3 },
+        sinks: true,
+        queries: false,
+        max_volume: 40,
+        max_threads: if thorough { 8 } else { 4 },
+        ..Default::default()
+    };
+    let mut c = gen::gen_bench(rng, &o);
+    let n = c.nodes.len();
+    let n_sinks = c.sinks.len();
+    let mut cid = 30_000u32;
+    // Dedicated sink ports with bursts of sends.
+    for s in 0..n_sinks {
+        for _ in 0..rng.range(1, 3) {
+            let i = rng.usize(n);
+            let mut port = Vec::new();
+            for _ in 0..rng.range(1, 2) {
+                cid += 1;
+                let filter = if rng.pct(25) { Some((2u8, rng.below(2) as u8)) } else { None };
+                port.push(Edge { cid, target: Target::Sink(s as u16), map: true, filter });
+            }
+            c.nodes[i].outs.push(port);
+            let p = (c.nodes[i].outs.len() - 1) as u8;
+            let kinds = c.nodes[i].on.len();
+            let k = rng.usize(kinds);
+            for _ in 0..rng.range(1, 4) {
+                let pos = rng.usize(c.nodes[i].on[k].len() + 1);
+                c.nodes[i].on[k].insert(pos, Op::Send { port: p, kind: rng.below(kinds as u64) as u8 });
+            }
+        }
+    }
+    let kinds = c.nodes[0].on.len().max(1) as u64;
+    let mut script = Vec::new();
+    for _ in 0..rng.range(3, if thorough { 12 } else { 9 }) {
+        let r = rng.below(100);
+        if r < 50 {
+            let cmd = Cmd::ProcessEvent { target: rng.usize(n) as u16, kind: rng.below(kinds) as u8 };
+            if gen::cmd_volume(&c, &cmd) <= 60 {
+                script.push(cmd);
+            }
+        } else if r < 85 {
+            let sink = rng.usize(n_sinks) as u16;
+            let cap = c.sinks[sink as usize].buffer.unwrap_or(1) as u64;
+            script.push(Cmd::SinkRead { sink, n: rng.range(0, cap + 2) as u8 });
+        } else {
+            script.push(Cmd::SinkCtl { sink: rng.usize(n_sinks) as u16, open: rng.pct(60) });
+        }
+    }
+    for s in 0..n_sinks {
+        script.push(Cmd::SinkRead { sink: s as u16, n: 12 });
+    }
+    c.script = script;
+    c.profile = "sinks".into();
+    c
+}
+fn check_c17(case: &Case, out: &Outcome, h: &Hist, _g: &mut Group) -> Vec<Violation> {
+    let mut v = oracle::common(case, out, h);
+    v.extend(oracle::sink::sink_rules(case, h));
+    v.extend(flow::all_ok(h));
+    v
+}
+fn nt_c17(c: &Case, _out: &Outcome, h: &Hist) -> bool {
+    // some sink received more events than it can hold between two reads, or was closed while written
+    let overflow = c.sinks.iter().enumerate().any(|(si, s)| {
+        let cap = s.buffer.unwrap_or(1) as usize;
+        let mut since = 0usize;
+        let mut evs: Vec<(u64, bool)> = h.sink_writes.iter().filter(|w| w.1 as usize == si).map(|w| (w.0, true)).collect();
+        evs.extend(h.sink_reads.iter().filter(|r| r.1 as usize == si).map(|r| (r.0, false)));
+        evs.sort();
+        for (_, is_write) in evs {
+            if is_write {
+                since += 1;
+                if since > cap {
+                    return true;
+                }
+            } else {
+                since = 0;
+            }
+        }
+        false
+    });
+    overflow || (!h.sink_ctl.is_empty() && !h.sink_writes.is_empty())
+}
+
+
+// ---------------------------------------------------------------- C14
+/// Requestors with 0-6 repliers (plain / map / filter_map connections, small
+/// mailboxes, repliers that query in turn), spurious wake-ups of the
+/// requesting task, query sources, and port clones that gain connections at
+/// run time.
+fn gen_c14(rng: &mut Rng, thorough: bool) -> Case {
+    let o = BenchOpts {
+        min_nodes: 3,
+        max_nodes: if thorough { 7 } else { 6 },
+        caps: vec![1, 1, 1, 2, 2, 16],
+        max_volume: 60,
+        max_threads: if thorough { 8 } else { 4 },
+        ..Default::default()
+    };
+    let mut c = gen::gen_bench(rng, &o);
+    let n = c.nodes.len();
+    let mut cid = 40_000u32;
+    // A rich requestor on a low node.
+    for _ in 0..rng.range(1, 2) {
+        let i = rng.usize(n - 1);
+        let k = rng.range(0, 6) as usize;
+        let mut port = Vec::new();
+        for _ in 0..k {
+            cid += 1;
+            let t = rng.range(i as u64 + 1, n as u64 - 1) as u16;
+            let r = rng.below(100);
+            let (map, filter) = if r < 30 { (false, Some((rng.range(2, 3) as u8, rng.below(2) as u8))) } else if r < 65 { (true, None) } else { (false, None) };
+            port.push(Edge { cid, target: Target::Node(t), map, filter });
+        }
+        c.nodes[i].reqs.push(port);
+        let p = (c.nodes[i].reqs.len() - 1) as u8;
+        let kinds = c.nodes[i].on.len();
+        for _ in 0..rng.range(1, 2) {
+            let kk = rng.usize(kinds);
+            let pos = rng.usize(c.nodes[i].on[kk].len() + 1);
+            c.nodes[i].on[kk].insert(pos, Op::Query { port: p, kind: rng.below(kinds as u64) as u8 });
+        }
+    }
+    // Fault W on some tasks.
+    for nd in c.nodes.iter_mut() {
+        for ops in nd.on.iter_mut() {
+            if rng.pct(25) {
+                let pos = rng.usize(ops.len() + 1);
+                ops.insert(pos, Op::LeakWaker);
+            }
+            if rng.pct(30) {
+                let pos = rng.usize(ops.len() + 1);
+                ops.insert(pos, Op::ChaosWake { how: rng.below(3) as u8 });
+            }
+        }
+    }
+    // Port clones: node j owns a clone of a port of node i < j; node i connects a new
+    // recipient to its own handle and then tells j (message causality), j sends through the clone.
+    if n >= 3 && rng.pct(60) {
+        let i = rng.usize(n - 2);
+        let j = rng.range(i as u64 + 1, n as u64 - 2) as usize;
+        let use_req = rng.pct(40);
+        let t_new = rng.range(j as u64 + 1, n as u64 - 1) as u16;
+        cid += 1;
+        let kinds = c.nodes[i].on.len();
+        let k_go = rng.below(kinds as u64) as u8;
+        let k_any = rng.below(kinds as u64) as u8;
+        // the shared port on i: targets strictly above j
+        let mut shared = Vec::new();
+        for _ in 0..rng.range(0, 2) {
+            cid += 1;
+            shared.push(Edge { cid, target: Target::Node(rng.range(j as u64 + 1, n as u64 - 1) as u16), map: rng.pct(50), filter: None });
+        }
+        cid += 1;
+        let new_cid = cid;
+        // a "go" port from i to j
+        cid += 1;
+        c.nodes[i].outs.push(vec![Edge { cid, target: Target::Node(j as u16), map: true, filter: None }]);
+        let go_port = (c.nodes[i].outs.len() - 1) as u8;
+        if use_req {
+            c.nodes[i].reqs.push(shared);
+            let q = (c.nodes[i].reqs.len() - 1) as u8;
+            c.nodes[j].reqs.push(vec![Edge { cid: 0, target: Target::Node(i as u16), map: false, filter: Some((255, q)) }]);
+            let pj = (c.nodes[j].reqs.len() - 1) as u8;
+            let kk = rng.usize(kinds);
+            c.nodes[i].on[kk].push(Op::Connect { port: 100 + q, target: t_new, cid: new_cid });
+            c.nodes[i].on[kk].push(Op::Send { port: go_port, kind: k_go });
+            c.nodes[j].on[k_go as usize].push(Op::Query { port: pj, kind: k_any });
+            if rng.pct(50) {
+                c.nodes[i].on[kk].push(Op::Query { port: q, kind: k_any });
+            }
+        } else {
+            c.nodes[i].outs.push(shared);
+            let q = (c.nodes[i].outs.len() - 1) as u8;
+            c.nodes[j].outs.push(vec![Edge { cid: 0, target: Target::Node(i as u16), map: false, filter: Some((255, q)) }]);
+            let pj = (c.nodes[j].outs.len() - 1) as u8;
+            let kk = rng.usize(kinds);
+            c.nodes[i].on[kk].push(Op::Connect { port: q, target: t_new, cid: new_cid });
+            c.nodes[i].on[kk].push(Op::Send { port: go_port, kind: k_go });
+            c.nodes[j].on[k_go as usize].push(Op::Send { port: pj, kind: k_any });
+            if rng.pct(50) {
+                c.nodes[i].on[kk].push(Op::Send { port: q, kind: k_any });
+            }
+        }
+    }
+    // Query sources with several repliers.
+    if rng.pct(60) {
+        let fan = rng.range(0, 4) as usize;
+        let edges = (0..fan)
+            .map(|_| {
+                cid += 1;
+                let r = rng.below(100);
+                let (map, filter) = if r < 30 { (false, Some((2u8, rng.below(2) as u8))) } else if r < 65 { (true, None) } else { (false, None) };
+                Edge { cid, target: Target::Node(rng.usize(n) as u16), map, filter }
+            })
+            .collect();
+        c.sources.push(SourceSpec { edges, query: true });
+    }
+    let mut script = Vec::new();
+    let kinds = c.nodes[0].on.len().max(1) as u64;
+    let mut tries = 0;
+    while script.len() < rng.range(2, 5) as usize && tries < 60 {
+        tries += 1;
+        let r = rng.below(100);
+        let cmd = if r < 45 {
+            Cmd::ProcessEvent { target: rng.usize(n) as u16, kind: rng.below(kinds) as u8 }
+        } else if r < 70 || c.sources.is_empty() {
+            Cmd::ProcessQuery { target: rng.usize(n) as u16, kind: rng.below(kinds) as u8 }
+        } else {
+            Cmd::ProcessSource { src: rng.usize(c.sources.len()) as u16, kind: rng.below(kinds) as u8 }
+        };
+        if gen::cmd_volume(&c, &cmd) <= 80 {
+            script.push(cmd);
+        }
+    }
+    if script.is_empty() {
+        script.push(Cmd::ProcessEvent { target: 0, kind: 0 });
+    }
+    c.script = script;
+    c.profile = "queries".into();
+    c
+}
+fn check_c14(case: &Case, out: &Outcome, h: &Hist, _g: &mut Group) -> Vec<Violation> {
+    let mut v = oracle::common(case, out, h);
+    v.extend(flow::query_replies(case, h));
+    v.extend(flow::conservation(case, h));
+    v.extend(flow::all_ok(h));
+    v
+}
+fn nt_c14(_c: &Case, _out: &Outcome, h: &Hist) -> bool {
+    // a query with at least two replies completed, or a connection was added at run time and used
+    h.sends.iter().any(|s| s.query && s.replies.len() >= 2) || !flow::dynamic_connections(h).is_empty()
+}
+
 pub static PROPS: &[PropSpec] = &[
+    PropSpec {
+        id: "C14",
+        gen: gen_c14,
+        check: check_c14,
+        nontrivial: nt_c14,
+        variants: single_variant,
+        schedules_quick: 10,
+        schedules_thorough: 32,
+        cases_quick: 12_000,
+        cases_thorough: 240_000,
+        rule: "a case is a bench with requestors of 0-6 repliers (plain / map / filter_map connections, capacity 1-2 mailboxes, repliers that query in turn), leaked wakers woken by other models (spurious polls of the query future), query sources, direct process_query, and output / requestor port clones that gain a connection at run time (connect on one clone, causally later send on another), on ST or MT; distinct = distinct (decision sequence, history); non-trivial = a query with at least two replies completed or a run-time connection was added",
+    },
+    PropSpec {
+        id: "C17",
+        gen: gen_c17,
+        check: check_c17,
+        nontrivial: nt_c17,
+        variants: single_variant,
+        schedules_quick: 6,
+        schedules_thorough: 16,
+        cases_quick: 20_000,
+        cases_thorough: 400_000,
+        rule: "a case is a bench whose models write to 1-2 sinks (EventBuffer capacity 1-8 or EventSlot, open or closed initially) through plain / map / filter_map connections, with 0 to several times the capacity written per command, and a driver that reads (0..capacity+2 events), closes and reopens the sinks between commands, on ST (exact reference) or MT (order-insensitive reference); distinct = distinct (decision sequence, history); non-trivial = a sink overflowed between two reads, or was closed/reopened while being written",
+    },
     PropSpec {
         id: "C19",
         gen: gen_c19,
